@@ -14,6 +14,8 @@ ASSERT_KINDS = ('BoundsCheck', 'DivisionByZero', 'RemainderByZero')
 def _classify_site(ex, cn, t):
     """('environment', reason) | ('guarded', reason) | ('data', description)"""
     a0 = ex.operand(t['args'][0]) if t['args'] else None
+    if ' on ' in cn:
+        return 'data', 'time arithmetic that panics when the result would be negative / out of range: %s' % ', '.join(show(ex.operand(a)) for a in t['args'])
     if cn.startswith('core::result::Result::') and a0 is not None:
         inner = strip_casts(a0)
         if inner[0] == 'call' and inner[1] == 'std::time::SystemTime::duration_since':
@@ -50,6 +52,16 @@ def check_panic_sites(run, ctx):
                     cn = callee_name(t)
                     if cn in PANICKY or cn.startswith(PANIC_FNS):
                         site = (cn, t)
+                    elif cn in ('core::ops::arith::Sub::sub', 'core::ops::arith::SubAssign::sub_assign', 'core::ops::arith::Div::div', 'core::ops::arith::Rem::rem',
+                                'core::ops::arith::Mul::mul'):
+                        r = t['callee'].get('resolved') or ''
+                        st = t['callee'].get('self_ty') or ''
+                        if st in ('core::time::Duration', 'std::time::Instant', 'std::time::SystemTime') and not (cn.endswith('Sub::sub') and st == 'std::time::Instant' and 'Instant>' in r):
+                            site = ('%s on %s' % (cn.rsplit('::', 1)[-1], st.rsplit('::', 1)[-1]), t)
+                    elif cn in ('core::time::Duration::from_secs_f64', 'core::time::Duration::from_secs_f32', 'core::time::Duration::mul_f64', 'core::time::Duration::div_f64',
+                                'std::time::Instant::duration_since', 'core::option::Option::unwrap_unchecked', 'core::hint::unreachable_unchecked'):
+                        if cn != 'std::time::Instant::duration_since':
+                            site = (cn, t)
                 if site is None:
                     continue
                 n += 1
